@@ -30,6 +30,7 @@ PLAN = [
     ("helpers.f90", "solve2x2", "f90_solve2x2"),
     ("curve_intersection.f90", "line_line_collide", "f90_line_line_collide"),
     ("curve_intersection.f90", "bbox_line_intersect", "f90_bbox_line_intersect"),
+    ("triangle_intersection.f90", "newton_refine_solve", "f90_newton_refine_solve"),
 ]
 CONSTS = {"WIGGLE": "(VQ f90_helpers_WIGGLE)",
           "BoxIntersectionType_DISJOINT": '(VEnum "DISJOINT")', "BoxIntersectionType_TANGENT": '(VEnum "TANGENT")',
